@@ -13,11 +13,14 @@ CONSTANTS
   LatchError = FALSE
   CountAccepted = TRUE
   KeepFirstError = FALSE
+  LatchOn = "err"
   Modes = {"never", "whole", "prefix"}
   Pieces = {0, 1, 2}
   GivenFile = ""
   MaxCalls = 2
   LaterModes = {"never", "whole", "prefix"}
   FreshPerCall = TRUE
+  ShareChoices = {FALSE}
+  PerWriterWrapper = FALSE
 INVARIANTS TypeOK CountExact NoWriteAfterFailure PrefixDelivered FirstError NoFailEqualsString FailsAtCapacity StringNeverPanics CallStartsFresh HealthyAfterFailure
 CHECK_DEADLOCK FALSE
